@@ -59,6 +59,19 @@ func (in *Interp) intrinsic(fn *ssa.Function, args []Val) (Val, bool) {
 		return in.nondetOf(res.At(0).Type(), nm), true
 	case name == "verifNote":
 		return nil, true
+	case name == "verifCanBe":
+		// existential side condition: records the label iff the condition is satisfiable on this path
+		c := args[0].(*Term)
+		if c.IsConst {
+			if c.C == 1 {
+				in.reach[fmt.Sprint(args[1])] = true
+			}
+			return nil, true
+		}
+		if r, _ := in.s.CheckPC(in.pc, []*Term{c}, nil); r == RSat {
+			in.reach[fmt.Sprint(args[1])] = true
+		}
+		return nil, true
 	case name == "verifFAdd", name == "verifFSub", name == "verifFMul":
 		F := in.cfg.Field
 		x, y := in.frRead(args[0]), in.frRead(args[1])
@@ -310,6 +323,14 @@ func findStub(in *Interp, fn *ssa.Function) StubFn {
 		}
 	}
 	switch pkg {
+	case "github.com/consensys/gnark/constraint/solver":
+		if name == "GetHintID" {
+			// derived from the hint's name by reflection: an opaque constant id
+			return func(in *Interp, fn *ssa.Function, a []Val) Val { return BVConst(0x5eed, 32) }
+		}
+		if name == "GetHintName" {
+			return func(in *Interp, fn *ssa.Function, a []Val) Val { return "<hint>" }
+		}
 	case "reflect":
 		switch name {
 		case "ValueOf":
